@@ -102,3 +102,73 @@ func (c *Ctx) ruleNameGrammar(rule string, floor int) {
 		})
 	}
 }
+
+// R-NAME-ACCESSOR-PAIR: the JSON (and text) reader finds a field by
+// FieldDescriptors.ByJSONName / ByTextName (extensions by the bracketed full
+// name, which TextName/JSONName produce). The writer must therefore name a
+// field only by the accessors that are the inverses of those lookups,
+// FieldDescriptor.JSONName() and TextName(); a name built from Name() or
+// Message().Name() is not found again for extensions (no brackets) and for
+// group-like fields.
+func (c *Ctx) ruleNameAccessorPair(rule string, pkg string, fn string, floor int) {
+	R, P := c.R, c.P
+	R.Rule(rule, "every field name the encoder writes for a message field comes from FieldDescriptor.JSONName() or TextName() — the inverses of the reader's ByJSONName/ByTextName lookups (map keys and the @type key excepted)", floor)
+	fi := c.need(rule, fn)
+	if fi == nil {
+		return
+	}
+	info := fi.Info()
+	for _, br := range bodiesOf(fi) {
+		defs := localDefs(br.Body, info)
+		i := 0
+		walk(br.Body, func(n ast.Node) bool {
+			call, ok := n.(*ast.CallExpr)
+			if !ok || len(call.Args) == 0 {
+				return true
+			}
+			if k := calleeKey(info, call); !(strings.HasSuffix(k, ".WriteName") && len(call.Args) == 1) && !strings.HasSuffix(k, "encoder.marshalField") {
+				return true
+			}
+			arg := unparen(call.Args[0])
+			var sources []ast.Expr
+			if id, ok := arg.(*ast.Ident); ok {
+				for _, d := range defs[info.Uses[id]] {
+					sources = append(sources, d.rhs)
+				}
+			} else {
+				sources = []ast.Expr{arg}
+			}
+			if len(sources) == 0 {
+				return true
+			}
+			// only names derived from a field descriptor are of interest
+			fromDesc := false
+			for _, s := range sources {
+				walk(s, func(x ast.Node) bool {
+					if sc, ok := x.(*ast.CallExpr); ok && strings.HasPrefix(calleeKey(info, sc), "reflect/protoreflect.FieldDescriptor.") {
+						fromDesc = true
+					}
+					return true
+				})
+			}
+			if !fromDesc {
+				return true
+			}
+			i++
+			bad := ""
+			for _, s := range sources {
+				sc, ok := unparen(s).(*ast.CallExpr)
+				k := ""
+				if ok {
+					k = calleeKey(info, sc)
+				}
+				if k != "reflect/protoreflect.FieldDescriptor.JSONName" && k != "reflect/protoreflect.FieldDescriptor.TextName" {
+					bad = exprStr(s)
+				}
+			}
+			R.Check(bad == "", rule, br.Name+" field name#"+itoa(i), P.Pos(call), "from JSONName()/TextName()", "a field name is written from `"+bad+"`, not from JSONName()/TextName(): the reader looks names up with ByJSONName/ByTextName and the bracketed extension form, so extensions (and group-like fields) written this way are not found when the output is parsed")
+			return true
+		})
+	}
+	_ = pkg
+}
